@@ -7,6 +7,9 @@ package main
 
 import (
 	"fmt"
+	"os"
+	"math/big"
+	"sort"
 	"strings"
 )
 
@@ -162,10 +165,12 @@ func (tb *TB) instantiate(asserts []*Term, rounds int) []*Term {
 				return
 			}
 			seen[t.ID] = true
-			if t.Op == "select" && t.Args[1].Sort.Kind != SArray && !heapLevel(t.Args[0]) {
-				if _, ok := ground[t.Args[1].ID]; !ok {
-					ground[t.Args[1].ID] = t.Args[1]
-					order = append(order, t.Args[1])
+			if t.Op == "select" && t.Args[1].Sort.Kind != SArray {
+				if !heapLevel(t.Args[0]) {
+					if _, ok := ground[t.Args[1].ID]; !ok {
+						ground[t.Args[1].ID] = t.Args[1]
+						order = append(order, t.Args[1])
+					}
 				}
 				rt := arrayRoot(t.Args[0]).ID
 				tb.groundByRoot[rt] = appendUnique(tb.groundByRoot[rt], t.Args[1])
@@ -218,6 +223,11 @@ func (tb *TB) instantiate(asserts []*Term, rounds int) []*Term {
 				combos = next
 				if len(combos) > 64 {
 					combos = combos[:64]
+				}
+			}
+			if os.Getenv("GOVC_DEBUG") != "" {
+				for _, v := range vars {
+					fmt.Fprintf(os.Stderr, "instantiate: forall %d var %s: %d candidates, %d combos\n", q.ID, v.Name, len(cands[v.ID]), len(combos))
 				}
 			}
 			var insts []*Term
@@ -321,7 +331,7 @@ func (tb *TB) candidates(body *Term, v *Term, ground []*Term) []*Term {
 			return
 		}
 		seen[t.ID] = true
-		if t.Op == "select" && t.Args[1].Sort == v.Sort && mentions(t.Args[1], v) && !heapLevel(t.Args[0]) {
+		if t.Op == "select" && t.Args[1].Sort == v.Sort && mentions(t.Args[1], v) && (!heapLevel(t.Args[0]) || t.Args[1] != v) {
 			pats = append(pats, t.Args[1])
 			patRoot[len(pats)-1] = arrayRoot(t.Args[0]).ID
 		}
@@ -387,6 +397,22 @@ func (tb *TB) candidates(body *Term, v *Term, ground []*Term) []*Term {
 					add(tb.BVC(bigZero, v.Sort.Width))
 				}
 				continue
+			}
+			if v.Sort.Kind == SInt {
+				if d := tb.linDiff(g, xpart); d != nil {
+					add(d)
+				}
+			}
+		}
+		// general linear pattern a*v + R = g  =>  v = (g - R) / a
+		if v.Sort.Kind == SInt && p != v {
+			for _, g := range gs {
+				if g.Sort != v.Sort {
+					continue
+				}
+				if d := tb.linSolve(p, v, g); d != nil {
+					add(d)
+				}
 			}
 		}
 	}
@@ -464,4 +490,98 @@ func appendUnique(l []*Term, t *Term) []*Term {
 		}
 	}
 	return append(l, t)
+}
+
+// linear normal form over Int terms: sum of coeff*atom + const
+type linForm struct {
+	c     *big.Int
+	atoms map[int]*big.Int
+	terms map[int]*Term
+}
+
+func (tb *TB) lin(t *Term, scale *big.Int, out *linForm) {
+	switch {
+	case t.IsConst() && t.Sort.Kind == SInt:
+		out.c.Add(out.c, new(big.Int).Mul(scale, t.Val))
+		return
+	case t.Op == "+":
+		for _, a := range t.Args {
+			tb.lin(a, scale, out)
+		}
+		return
+	case t.Op == "-" && len(t.Args) == 2:
+		tb.lin(t.Args[0], scale, out)
+		tb.lin(t.Args[1], new(big.Int).Neg(scale), out)
+		return
+	case t.Op == "*" && len(t.Args) == 2 && t.Args[1].IsConst():
+		tb.lin(t.Args[0], new(big.Int).Mul(scale, t.Args[1].Val), out)
+		return
+	}
+	if old, ok := out.atoms[t.ID]; ok {
+		out.atoms[t.ID] = new(big.Int).Add(old, scale)
+	} else {
+		out.atoms[t.ID] = new(big.Int).Set(scale)
+		out.terms[t.ID] = t
+	}
+}
+
+// linDiff returns a term for g - x when it simplifies to at most two atoms.
+func (tb *TB) linDiff(g, x *Term) *Term {
+	lf := &linForm{c: new(big.Int), atoms: map[int]*big.Int{}, terms: map[int]*Term{}}
+	tb.lin(g, big.NewInt(1), lf)
+	tb.lin(x, big.NewInt(-1), lf)
+	var ids []int
+	for id, c := range lf.atoms {
+		if c.Sign() != 0 {
+			ids = append(ids, id)
+		}
+	}
+	if len(ids) > 2 {
+		return nil
+	}
+	sort.Ints(ids)
+	r := tb.IntB(lf.c)
+	for _, id := range ids {
+		r = tb.Add(tb.Mul(lf.terms[id], tb.IntB(lf.atoms[id])), r)
+	}
+	return r
+}
+
+// linSolve solves p(v) = g for v when p is linear in v and the solution is an
+// integer-linear term with at most three atoms.
+func (tb *TB) linSolve(p, v, g *Term) *Term {
+	lf := &linForm{c: new(big.Int), atoms: map[int]*big.Int{}, terms: map[int]*Term{}}
+	tb.lin(g, big.NewInt(1), lf)
+	tb.lin(p, big.NewInt(-1), lf)
+	a, ok := lf.atoms[v.ID]
+	if !ok || a.Sign() == 0 {
+		return nil
+	}
+	// g - p = a'*v + rest  with a' = -coef(v in p); solution v = rest / coef
+	coef := new(big.Int).Neg(a)
+	delete(lf.atoms, v.ID)
+	for _, t := range lf.terms {
+		if t != v && mentions(t, v) {
+			return nil // non-linear occurrence
+		}
+	}
+	var ids []int
+	for id, c := range lf.atoms {
+		if c.Sign() == 0 {
+			continue
+		}
+		if new(big.Int).Mod(c, coef).Sign() != 0 {
+			return nil
+		}
+		ids = append(ids, id)
+	}
+	if new(big.Int).Mod(lf.c, coef).Sign() != 0 || len(ids) > 3 {
+		return nil
+	}
+	sort.Ints(ids)
+	r := tb.IntB(new(big.Int).Quo(lf.c, coef))
+	for _, id := range ids {
+		r = tb.Add(tb.Mul(lf.terms[id], tb.IntB(new(big.Int).Quo(lf.atoms[id], coef))), r)
+	}
+	return r
 }
